@@ -5,6 +5,18 @@ related = {  # additional checks worth running besides the property the change w
  "C01": ["C03"], "C02": ["C03"], "C03": ["C01", "C02"], "C04": ["C07"], "C05": ["C07"], "C06": ["C07"], "C07": [], "C08": [], "C09": [], "C10": ["C07"],
  "C11": [], "C12": ["C15"], "C13": [], "C14": [], "C15": ["C18"], "C16": [], "C17": [], "C18": ["C15"], "C19": [], "C20": [],
 }
+MISSED = {
+ "C03-4": "missed by the quick tier as it stood (adjacency lists never exceeded ~40 entries); caught after the long-adjacency-list family (hub with 9..1100 edges, try_connect against an edge in one direction only) was added",
+ "C04-4": "missed (no constructed graph made a node re-discoverable from the same level beyond 256 discovered nodes with a target below it); caught after the fan family with targets around powers of two was added",
+ "C07-4": "missed (all key types hashed injectively); caught after the payload programs got a key type with colliding Hash / non-injective Display",
+ "C12-4": "missed (all key types hashed injectively); caught after the payload programs got a key type with colliding Hash / non-injective Display",
+ "C13-4": "missed (Display of every key type was injective); caught after the payload programs got a Deser step and the colliding key type",
+ "C18-4": "missed (the harness always kept its own handle to every inserted node); caught after the container-is-sole-owner scenario and the 'container calls never change edge lists' oracle were added",
+ "C19-4": "missed (no node had 256 outgoing edges); caught after ConnectBurst and the wide-adjacency-list drop-order cases were added",
+ "C20-4": "missed (loops were driven by next()/for only); caught after loops through std adapters (map/take_while/collect/unzip) and size_hint probing were added",
+ "C17-4": "caught at once, through the serialisability clause; the clause the author aimed at (reader panics when a neighbour is released) is now also reached by the isolate+release free-running pairs",
+ "C10-4": "caught at once",
+}
 def run(patch, props):
     out = subprocess.run(["/verif/tools/try_mutant.sh", patch, "quick"] + props, capture_output=True, text=True, timeout=3600).stdout
     res = {}
@@ -18,6 +30,7 @@ for d in sorted(glob.glob("/tmp/seeded-out/*/")):
     prop = name.split("-")[0]
     dst = f"/verif/seeded/{name}"
     if os.path.exists(f"{dst}/meta.json"): continue
+    if not os.path.exists(f"{d}/confirm.json"): continue
     conf = json.load(open(f"{d}/confirm.json"))
     if not all(v for k, v in conf.items() if k != "candidate"): continue
     os.makedirs(dst, exist_ok=True)
@@ -26,8 +39,9 @@ for d in sorted(glob.glob("/tmp/seeded-out/*/")):
     res = run(f"{dst}/patch.diff", [prop] + (related.get(prop, []) if os.environ.get("WITH_RELATED") else []))
     notes = open(f"{d}/notes.md").read()
     meta = {
-        "id": name, "breaks_property": prop, "origin": "independent sub-agent given only the property text and a scratch worktree" + (" (second round: asked to be invisible on graphs with fewer than 5 nodes and histories of fewer than 6 operations)" if name.endswith("-3") else ""),
-        "origin_short": "sub-agent, round 2" if name.endswith("-3") else "sub-agent, round 1",
+        "id": name, "breaks_property": prop, "origin": "independent sub-agent given only the property text and a scratch worktree" + (" (second round: asked to be invisible on graphs with fewer than 5 nodes and histories of fewer than 6 operations)" if name.endswith("-3") else " (later round: asked for a change that a strong randomized / small-scope harness with integer payloads, graphs up to 40-1100 nodes and long histories would still miss)" if name.endswith("-4") or name.endswith("-5") else ""),
+        "origin_short": "sub-agent, round 2" if name.endswith("-3") else "sub-agent, round 3+" if name.endswith("-4") or name.endswith("-5") else "sub-agent, round 1",
+        "missed_at_first": MISSED.get(name),
         "needs_to_manifest": "see notes.md (written by the author of the change)",
         "confirmed_by_me": {"how": "tools/confirm_seeded.sh in a scratch worktree of /repo: git apply; cargo test --offline --no-fail-fast (80 tests + 118 doctests) with tests/seeded_demo.rs added; then without the patch", **conf},
         "checks_run": {k: ("CAUGHT (exit 1)" if v["exit"] == 1 else "not flagged (exit %d)" % v["exit"]) + (": " + v["first_violation"] if v["first_violation"] else "") for k, v in res.items()},
